@@ -22,7 +22,11 @@ def resiOf (j : Json) : Except String ResiE := do
 
 def opOf (j : Json) : Except String Op := do
   match ← arr j with
-  | [k] => if (← str k) == "check" then return .check else err "C17: op"
+  | [k] =>
+    match ← str k with
+    | "check" => return .check
+    | "lookup" => return .lookup
+    | _ => err "C17: op"
   | [k, a] =>
     match ← str k with
     | "delItem" => return .delItem (← nat a)
@@ -68,7 +72,14 @@ def handle (j : Json) : Except String Json := do
                       | _ => Json.null),
       ("addressed", Json.arr (r.atoms.map fun t =>
           if addressable t then ofNats (addressed f r t) else Json.null).toArray)]
-    return Json.mkObj [("model", outcome (assign f r)), ("legacy", outcome (Legacy.assign f r)), ("spec", spec)]
+    -- look-ups `get_atom_by_name('NAME_n')` on the state after the history (before the evaluation rebuilds the index)
+    let probes ← match fieldOpt j "probe" with
+      | some o => (← arr o).mapM atomOf
+      | none => pure []
+    let lookup := Json.mkObj [
+      ("model", Json.arr (probes.map fun a => Json.bool (getAtomByName f (a.name ++ '_' :: natStr a.resi))).toArray),
+      ("spec", Json.arr (probes.map fun a => Json.bool (atomExists f (upper a.name) a.resi)).toArray)]
+    return Json.mkObj [("model", outcome (assign f r)), ("legacy", outcome (Legacy.assign f r)), ("spec", spec), ("lookup", lookup)]
   | "report" =>
     -- a name as printed after 'Atom list has no -->' read back as (NAME, residue)
     let names ← field j "names" >>= strs
